@@ -239,13 +239,23 @@ def unit_solve_sylvester_KPM(nsub, with_aux, timeout_ms=20000, defaults=False):
             # --- the returned solver
             i = eng.fresh("i")
             j = eng.fresh("j")
-            eng.assume(z3.And(i >= 0, i < nsub, j >= 0, j <= nsub))
-            ii = next(k for k in range(nsub) if k == nsub - 1 or eng.branch(i == k))
+            eng.assume(z3.And(i >= 0, i <= nsub, j >= 0, j <= nsub, z3.Not(z3.And(i == nsub, j == nsub))))   # the implicit diagonal block is never the subject of a Sylvester equation
+            ii = next(k for k in range(nsub + 1) if k == nsub or eng.branch(i == k))
             jj = next(k for k in range(nsub + 1) if k == nsub or eng.branch(j == k))
+            if ii == nsub and jj == nsub:
+                return
             Y = T("Y")
             r0 = eng.call(solver, [ZERO, STup([ii, jj, 1])], {})
             eng.oblige("zero-rhs-gives-zero", z3.BoolVal(r0 is ZERO))
             gf_calls.clear()
+            if ii == nsub:
+                # left-implicit orientation: the KPM solver has no Green's function for it - it must say so, never answer with the explicit part alone
+                try:
+                    r = eng.call(solver, [Y, STup([ii, jj, 1])], {})
+                    eng.oblige("left-implicit-request-is-refused", False, detail=f"returned {r!r}"[:200])
+                except PyRaise as pr:
+                    eng.oblige("left-implicit-request-is-refused", z3.BoolVal(pr.exc.cls == "NotImplementedError"), detail=pr.exc.cls)
+                return
             r = eng.call(solver, [Y, STup([ii, jj, 1])], {})
             if jj != nsub:
                 eng.oblige("explicit-pair-uses-only-the-explicit-part", z3.BoolVal(term_eq_py(r, T("explicit", Y, ii, jj)) and not gf_calls), detail=repr(r)[:200])
